@@ -197,6 +197,23 @@ def run(m: Model, r: Report, tier: str) -> None:
     busy_last_attempt(m, r, "R4")
     check_unravel_inclusive(m, r, "R9")
 
+    smain = m.require_function(f"{SVC}.ServicesScanner.main")
+    gsm = CFG(smain.node)
+    app_nodes = {n.id for n in gsm.nodes.values() if n.kind == "stmt" and n.ast is not None and "self.result.append(" in ast.unparse(n.ast)}
+    if not app_nodes:
+        raise AnalysisError(f"{smain.qualname}: self.result.append not found")
+    for an in sorted(app_nodes):
+        owner_loops = [n for n in ast.walk(smain.node) if isinstance(n, ast.For) and any(x is gsm.nodes[an].ast for x in ast.walk(n))]
+        inner = owner_loops[-1] if owner_loops else None
+        heads = [n.id for n in gsm.nodes.values() if n.kind == "loop" and n.ast is inner]
+        if not heads:
+            raise AnalysisError(f"{smain.qualname}: loop around self.result.append not found")
+        body_first = [b for b, k in gsm.succ[heads[0]] if k == "n"][0]
+        okap, pap = (True, []) if body_first == an else gsm.must_pass(body_first, {an}, {heads[0]})
+        r.check(okap, "R4", f"{smain.qualname}#every-finding-in-result",
+                "an iteration over the findings can finish without appending to self.result (e.g. through the handler of a name lookup that fails for "
+                "vendor specific service ids): " + " -> ".join(repr(gsm.nodes[p_]) for p_ in pap[-4:]), loc=smain.loc)
+
     # ---------------------------------------------------------------- R6-R8
     pi = m.require_function(f"{IDS}.ScanIdentifiers.perform_scan")
     loops = [n for n in walk_no_nested(pi.node) if isinstance(n, ast.For) and "product(" in ast.unparse(n.iter)]
